@@ -152,7 +152,15 @@ func c03Check(pg *Prog, exitCodeFlag bool) func(x *vlab.Exec) []vlab.Violation {
 				}
 			}
 		}
-		if x.Res.Deadlock || x.Res.Horizon || x.Res.Panic != "" {
+		if x.Res.Deadlock || x.Res.Horizon {
+			// the invocation must END with a status
+			kind := "deadlock"
+			if x.Res.Horizon {
+				kind = "horizon"
+			}
+			return append(out, vlab.V("C03", "invocation_did_not_end", kind, fmt.Sprintf("after a command failed the invocation never ended (%s: %v)", kind, x.Res.Blocked)))
+		}
+		if x.Res.Panic != "" {
 			return out
 		}
 		if uncovered {
@@ -276,6 +284,12 @@ func c03Progs() map[string]*Prog {
 		{Name: "x", Cmds: []C{P()}},
 		sib,
 	}}
+	// ignore_error on a task CALL does not cover a failing, unmarked command of the callee
+	m["ignore-on-call-does-not-cover-callee"] = &Prog{Tasks: []*T{
+		{Name: "root", Deps: []Ref{D("sib")}, Cmds: []C{P(), {Call: &Ref{Task: "a"}, IgnoreError: true}, P()}},
+		{Name: "a", Cmds: []C{P(), F(), P()}},
+		sib,
+	}}
 	m["fail-in-nested-call"] = &Prog{Tasks: []*T{
 		{Name: "root", Deps: []Ref{D("sib")}, Cmds: []C{P(), Call("a"), P()}},
 		{Name: "a", Cmds: []C{Call("b"), P(), Call("x")}},
@@ -332,6 +346,8 @@ func c03Units(tier string) []*Unit {
 			concs := []int{0}
 			if tier == "thorough" {
 				concs = []int{0, 1, 2}
+			} else if !xflag && (name == "fail-in-nested-call" || name == "fail-in-dep") {
+				concs = []int{0, 1} // a failure below a task call / a dependency under a concurrency limit
 			}
 			for _, conc := range concs {
 				bound, shards := boundFor(tier, len(pg.Tasks), conc)
